@@ -585,3 +585,776 @@ def toplevel_index(b, n):
             r = b.role[cur["_i"]]
             return r[1] if isinstance(r, tuple) else len(b.root.get("stmts", []))
         cur = p
+
+
+# =====================================================================================================
+#  R8.1  rule tables
+# =====================================================================================================
+def _dt(t):
+    return V("%s::%s" % (DT, t), ())
+
+
+def _compare(rep, key, got, want, what, loc):
+    """compare one table entry with the oracle ('any' = unconstrained)"""
+    if want == "any":
+        rep.ok(key, "%s = %s (not constrained by the oracle)" % (what, got), loc)
+        return
+    if isinstance(want, bool):
+        want = "true" if want else "false"
+    rep.check(got == want, key, "%s is %s, the oracle (statement + Rust language) says %s" % (what, got, want), loc)
+
+
+def fnptr_sig_hook(nargs, abi):
+    def hook(body, n, env, interp):
+        if n["k"] == "MCall" and n["name"] == "len" and strip(n["recv"]).get("k") == "Field" and \
+                strip(n["recv"]).get("adt") == "ir::function::FunctionSig":
+            return nargs
+        if n["k"] == "Field" and n.get("adt") == "ir::function::FunctionSig" and body.ty(n) == "ir::function::ClangAbi":
+            return abi
+        return NotImplemented
+    return hook
+
+
+def edge_set(prog, interp, pred_body, trait):
+    """set of EdgeKind variants for which the predicate returned by `pred_body(trait)` answers true; None if undecidable"""
+    try:
+        f = interp.call(pred_body, [_dt(trait)])
+    except (Undecidable, Panics):
+        return None
+    out = set()
+    for e in variants(prog, EK):
+        arg = V("%s::%s" % (EK, e), ())
+        try:
+            if isinstance(f, tuple) and f[:1] == ("closure",):
+                r = interp.call_closure(f, [arg])
+            elif isinstance(f, tuple) and f[:1] == ("fn",) and f[1] in prog.bodies:
+                r = interp.call(prog.bodies[f[1]], [arg])
+            else:
+                return None
+        except (Undecidable, Panics):
+            return None
+        if r is True:
+            out.add(e)
+        elif r is not False:
+            return None
+    return out
+
+
+@RULES.rule("R8.1", "derive rule tables, limits and the CanDerive lattice agree with the oracle", floor=175)
+def r8_1(rep):
+    """Every `DeriveTrait::can_derive_*` predicate is evaluated for every DeriveTrait variant (can_derive_simple for every
+    simple TypeKind, can_derive_fnptr for both answers of function_pointers_can_derive) and compared with
+    oracle/derive_rules.json.  Breaks: `can_derive_pointer` answering Yes for Default puts `#[derive(Default)]` on a struct
+    with a `*mut T` member (E0277); `can_derive_simple(Hash, Float)` = Yes derives Hash over an f64; reversing the
+    lattice order lets a member's `No` be overwritten by `Yes`."""
+    prog = rep.prog
+    it = Interp(prog)
+    have = variants(prog, DT)
+    rep.check(sorted(have) == sorted(TRAITS), "traits", "DeriveTrait variants %s (oracle knows %s)" % (have, TRAITS))
+
+    # -- boolean predicates --------------------------------------------------------------------------
+    for name, row in ORACLE["bool_predicates"].items():
+        b = dt_method(rep, name)
+        for t in TRAITS:
+            got = result_name(it, b, [_dt(t)] + [UNK] * (len(b.params) - 1))
+            _compare(rep, "table:%s:%s" % (name, t), got, row[t], "%s(%s)" % (name, t), b.loc(b.root))
+    # -- CanDerive-valued predicates -----------------------------------------------------------------
+    for name in ("can_derive_pointer", "can_derive_vector"):
+        b = dt_method(rep, name)
+        for t in TRAITS:
+            got = result_name(it, b, [_dt(t)])
+            _compare(rep, "table:%s:%s" % (name, t), got, ORACLE[name][t], "%s(%s)" % (name, t), b.loc(b.root))
+    b = dt_method(rep, "can_derive_fnptr")
+    for ok, rowname in ((True, "std_impls"), (False, "no_std_impls")):
+        def hook(body, n, env, interp, ok=ok):
+            if n["k"] == "MCall" and n["name"] == "function_pointers_can_derive":
+                return ok
+            return NotImplemented
+        it2 = Interp(prog, hook)
+        for t in TRAITS:
+            got = result_name(it2, b, [_dt(t), UNK])
+            _compare(rep, "table:can_derive_fnptr:%s:%s" % (t, rowname), got, ORACLE["can_derive_fnptr"][rowname][t],
+                     "can_derive_fnptr(%s) when function_pointers_can_derive() is %s" % (t, str(ok).lower()), b.loc(b.root))
+    b = dt_method(rep, "can_derive_simple")
+    for kind in ORACLE["simple_kinds"]:
+        for t in TRAITS:
+            got = result_name(it, b, [_dt(t), V("%s::%s" % (TK, kind), None)])
+            _compare(rep, "table:can_derive_simple:%s:%s" % (t, kind), got, ORACLE["can_derive_simple"][kind][t],
+                     "can_derive_simple(%s, %s)" % (t, kind), b.loc(b.root))
+
+    # -- which signatures get the std impls ----------------------------------------------------------
+    fp = rep.need(prog.fn("ir::function::FunctionSig::function_pointers_can_derive"), "FunctionSig::function_pointers_can_derive")
+    spec = ORACLE["function_pointers_can_derive"]
+    abis = [("Known(%s)" % a, V("ir::function::ClangAbi::Known", (V("ir::function::Abi::" + a, ()),)))
+            for a in variants(prog, "ir::function::Abi")] + [("Unknown", V("ir::function::ClangAbi::Unknown", None))]
+    rep.need(variants(prog, "ir::function::Abi"), "enum ir::function::Abi")
+    for nm, abi in abis:
+        got = result_name(Interp(prog, fnptr_sig_hook(1, abi)), fp, [UNK])
+        _compare(rep, "fnptr-sig:abi:" + nm, got, nm in spec["abi_ok"], "function_pointers_can_derive() for ABI %s" % nm, fp.loc(fp.root))
+    cabi = dict(abis)["Known(C)"]
+    answers = [result_name(Interp(prog, fnptr_sig_hook(k, cabi)), fp, [UNK]) for k in range(0, 41)]
+    ok_upto = [k for k, a in enumerate(answers) if a == "true"]
+    shape = answers == ["true"] * (max(ok_upto) + 1 if ok_upto else 0) + ["false"] * (40 - (max(ok_upto) if ok_upto else -1))
+    rep.check(shape and ok_upto and max(ok_upto) == spec["max_args"], "fnptr-sig:max-args",
+              "function pointers derive normally up to %s arguments (oracle: %d)" % (max(ok_upto) if ok_upto else "?", spec["max_args"]),
+              fp.loc(fp.root))
+
+    # -- limits --------------------------------------------------------------------------------------
+    for cname, ent in ORACLE["limits"].items():
+        cb = [x for p, x in prog.bodies.items() if p.endswith("::" + cname) and x.kind.startswith("Const")]
+        rep.need(cb, "const " + cname)
+        try:
+            val = it.call(cb[0], [])
+        except (Undecidable, Panics):
+            val = UNK
+        rep.check(val == ent["value"], "limit:" + cname, "%s = %s (oracle: %d; %s)" % (cname, vname(val), ent["value"], ent["why"]),
+                  cb[0].loc(cb[0].root))
+
+    # -- lattice -------------------------------------------------------------------------------------
+    lat = ORACLE["lattice"]
+    order = variants(prog, CD)
+    rep.check(order == lat["order"] and it.derived_ord(CD), "lattice:order",
+              "CanDerive is ordered %s by a derived Ord (oracle: %s)" % (" < ".join(order), " < ".join(lat["order"])))
+    db = rep.need(prog.impl_fn("std::default::Default", CD, "default"), "<CanDerive as Default>::default")
+    rep.check(result_name(it, db, []) == lat["default"], "lattice:default",
+              "an item nobody has complained about counts as %s (oracle: %s)" % (result_name(it, db, []), lat["default"]), db.loc(db.root))
+    rank = {v: i for i, v in enumerate(lat["order"])}
+    joins = [("join", rep.need(prog.fn(CD + "::join"), "CanDerive::join")),
+             ("bitor", rep.need(prog.impl_fn("std::ops::BitOr", CD, "bitor"), "<CanDerive as BitOr>::bitor"))]
+    for a, c in itertools.product(lat["order"], repeat=2):
+        want = a if rank[a] >= rank[c] else c
+        for nm, jb in joins:
+            got = result_name(it, jb, [V("%s::%s" % (CD, a), ()), V("%s::%s" % (CD, c), ())])
+            rep.check(got == want, "lattice:%s:%s|%s" % (nm, a, c), "%s(%s, %s) = %s (least upper bound: %s)" % (nm, a, c, got, want),
+                      jb.loc(jb.root))
+    ba = rep.need(prog.impl_fn("std::ops::BitOrAssign", CD, "bitor_assign"), "<CanDerive as BitOrAssign>::bitor_assign")
+    asg = [n for n in ba.walk() if n["k"] == "Assign"]
+    good = len(asg) == 1 and strip(asg[0]["l"]).get("name") == "self" and \
+        short(callee_of(strip(asg[0]["r"]))) in ("join", "bitor", "max") and len([x for x in ba.walk(asg[0]["r"]) if x["k"] == "Local"]) == 2
+    rep.check(good, "lattice:bitor_assign", "`a |= b` stores join(a, b) into a", ba.loc(ba.root))
+
+    # -- edges followed by the joins -----------------------------------------------------------------
+    never = set(ORACLE["edges"]["never"])
+    for name in ("consider_edge_comp", "consider_edge_typeref", "consider_edge_tmpl_inst"):
+        b = dt_method(rep, name)
+        req = set(ORACLE["edges"][name]["required"])
+        for t in TRAITS:
+            es = edge_set(prog, it, b, t)
+            if es is None:
+                rep.bad("edges:%s:%s" % (name, t), "the edge predicate returned by %s(%s) cannot be evaluated" % (name, t), b.loc(b.root))
+                continue
+            rep.check(req <= es and not (es & never), "edges:%s:%s" % (name, t),
+                      "%s(%s) follows %s; must follow %s and never %s" % (name, t, sorted(es), sorted(req), sorted(es & never) or "method/inner-item edges"),
+                      b.loc(b.root))
+
+    # -- user exclusion lists ------------------------------------------------------------------------
+    nb = dt_method(rep, "not_by_name")
+    for t in TRAITS:
+        seen = []
+
+        def hook(body, n, env, interp):
+            if n["k"] == "MCall" and body is nb and n.get("callee", "").startswith(CTX + "::"):
+                seen.append(n["callee"])
+                return True
+            return NotImplemented
+        try:
+            Interp(prog, hook).call(nb, [_dt(t), UNK, UNK])
+        except (Undecidable, Panics):
+            pass
+        fields = set()
+        for c in seen:
+            cb = prog.fn(c)
+            if cb is not None:
+                fields |= {opt_field(x["recv"]) for x in cb.calls(lambda x: x["k"] == "MCall" and x["name"] == "matches")} - {None}
+        want = ORACLE["not_by_name"][t]
+        rep.check(fields == {want}, "not_by_name:" + t, "the %s analysis excludes the types matched by %s (oracle: %s)" % (t, sorted(fields), want),
+                  nb.loc(nb.root))
+
+
+# =====================================================================================================
+#  R8.5  CannotDerive::constrain_type consults the tables for the right kind with the right polarity
+# =====================================================================================================
+FAMILY = {"can_derive_simple": "simple", "can_derive_pointer": "pointer", "can_derive_fnptr": "fnptr", "can_derive_vector": "vector",
+          "can_derive_incomplete_array": "array", "can_derive_compound_forward_decl": "comp", "consider_edge_comp": "comp",
+          "consider_edge_typeref": "join", "consider_edge_tmpl_inst": "join"}
+
+
+def cannot_derive_bodies(prog):
+    """methods of `impl CannotDerive` (constrain_type and whatever helpers it may be split into) + MonotoneFramework::constrain"""
+    return [b for p, b in prog.bodies.items() if "ir::analysis::derive::CannotDerive" in p and b.kind == "AssocFn"]
+
+
+def deep_callees(prog, b, node, helpers, depth=2):
+    """callee paths of the calls below `node`, following calls into `helpers` (other CannotDerive methods)"""
+    out = set()
+    for c in b.calls(None, node):
+        name = callee_of(c)
+        out.add(name)
+        hb = helpers.get(name)
+        if hb is not None and depth > 0 and hb is not b:
+            out |= deep_callees(prog, hb, hb.root, helpers, depth - 1)
+    return out
+
+
+def threshold(b, cond, interp):
+    """for a comparison `x > C` / `x >= C` / `C < x` / `C <= x` with a constant side: least x that makes it true"""
+    e = strip(cond)
+    if e.get("k") != "Binary" or e["op"] not in (">", ">=", "<", "<="):
+        return None
+    for side, other, flip in ((e["r"], e["l"], False), (e["l"], e["r"], True)):
+        try:
+            c = interp.ev(b, side, {})
+        except (Undecidable, Panics):
+            continue
+        if isinstance(c, int) and not isinstance(c, bool):
+            op = e["op"]
+            if flip:
+                op = {">": "<", ">=": "<=", "<": ">", "<=": ">="}[op]
+            if op == ">":
+                return c + 1
+            if op == ">=":
+                return c
+            return None
+    return None
+
+
+def returns_of(b, value):
+    """nodes at which the body answers CanDerive::<value>: `return X`, a tail expression X, or `can_derive = X`"""
+    out = []
+    want = "%s::%s" % (CD, value)
+    for n in b.walk():
+        if n["k"] == "Path" and n["def"] == want:
+            p = b.parent[n["_i"]]
+            if p is None:
+                continue
+            if p["k"] == "Ret" or (p["k"] == "Block" and p.get("tail") is n) or (p["k"] == "Assign" and p["r"] is n):
+                out.append(n)
+            elif p["k"] == "Match" or p["k"] == "If":
+                out.append(n)
+    return out
+
+
+def disjuncts(e):
+    e = strip(e)
+    if e.get("k") == "Binary" and e["op"] == "||":
+        return disjuncts(e["l"]) + disjuncts(e["r"])
+    return [e]
+
+
+def has_all(atoms, req):
+    return all(any(s in a and p == pol for a, p, _ in atoms) for s, pol in req)
+
+
+@RULES.rule("R8.5", "constrain_type applies each table to the kind it is about, with the right polarity, and joins over members", floor=38)
+def r8_5(rep):
+    """The tables of R8.1 only matter through their use sites.  Routing: every TypeKind is decided by the rule family
+    the oracle names (a `Reference` moved into the type-reference join would make Default follow the pointee).  Polarity:
+    each `return No`/`Manually` is taken exactly when the predicate says the trait is NOT supported and the structural
+    condition holds (dropping the `!` in `!can_derive_compound_with_vtable() && has_vtable` derives Default over a
+    vtable pointer).  Joins: arrays/vectors answer No unless the element type is Yes; composites join over members."""
+    prog = rep.prog
+    it = Interp(prog)
+    bodies = cannot_derive_bodies(prog)
+    helpers = {p: b for p, b in prog.bodies.items() if b in bodies}
+    ct = rep.need(find_fn(prog, "::constrain_type", "CannotDerive"), "CannotDerive::constrain_type")
+    # ---- routing ------------------------------------------------------------------------------------
+    ms = [n for n in ct.walk() if n["k"] == "Match" and ct.ty(strip(n["scrut"])) in (TK, "&" + TK) and not ct.macro_name(n)]
+    rep.need(ms, "match over TypeKind in constrain_type")
+    m = max(ms, key=lambda n: len(n["arms"]))
+    routed = {}
+    for a in m["arms"]:
+        callees = deep_callees(prog, ct, a["body"], helpers)
+        fam = {FAMILY[short(c)] for c in callees if c.startswith(DT + "::") and short(c) in FAMILY}
+        if not fam and any(x.endswith(p) for x in callees for p in PANIC_CALLEES):
+            fam = {"unreachable"}
+        for v in pat_variants(a["pat"]):
+            routed.setdefault(v.replace(TK + "::", "") if v != "_" else "_", set()).update(fam)
+    for kind in variants(prog, TK):
+        got = routed.get(kind, routed.get("_", set()))
+        want = ORACLE["routing"].get(kind)
+        if want is None:
+            rep.bad("route:" + kind, "TypeKind::%s is unknown to the oracle; it is decided by %s" % (kind, sorted(got)), ct.loc(m))
+            continue
+        rep.check(got == set(want), "route:" + kind, "TypeKind::%s is decided by %s (oracle: %s)" % (kind, sorted(got), want), ct.loc(m))
+
+    # ---- polarity of the use sites --------------------------------------------------------------------
+    LIM = "RUST_DERIVE_IN_ARRAY_LIMIT"
+    specs = [
+        ("use:forward-decl", "No", [("can_derive_compound_forward_decl", False), ("CompInfo::is_forward_declaration", True)]),
+        ("use:destructor", "No", [("can_derive_compound_with_destructor", False), ("lookup_has_destructor", True)]),
+        ("use:vtable", "No", [("can_derive_compound_with_vtable", False), ("has_vtable", True)]),
+        ("use:rust-union", "No", [("can_derive_union", False), ("BindgenOptions::untagged_union", True), ("CompKind::Union", True)]),
+        ("use:rust-union-opaque", "No", [("can_derive_union", False), ("BindgenOptions::untagged_union", True), ("Type::is_union", True),
+                                         ("IsOpaque>::is_opaque", True)]),
+        ("use:incomplete-array", "No", [("can_derive_incomplete_array", False), ("== lit:0)", True)]),
+        ("use:large-array", "Manually", [("can_derive_large_array", False), (LIM, True)]),
+        ("use:large-bitfield-unit", "No", [("can_derive_large_array", False), ("has_too_large_bitfield_unit", True)]),
+        ("use:large-alignment", "Manually", [("can_derive_large_array", False), ("Type::layout", True)]),
+        ("use:excluded-by-name", "No", [("DeriveTrait::not_by_name", True)]),
+        ("use:array-element", "No", [("arm:Array", True), ("CannotDerive::can_derive", True), ("!= %s::Yes" % CD, True)]),
+        ("use:vector-element", "No", [("arm:Vector", True), ("CannotDerive::can_derive", True), ("!= %s::Yes" % CD, True)]),
+    ]
+    sites = {}
+    for b in bodies:
+        for val in ("No", "Manually"):
+            for n in returns_of(b, val):
+                atoms = list(qq.guard_atoms(b, n))
+                # name the TypeKind arm the site sits in
+                for pol, kind, payload in b.guards(n):
+                    if kind == "arm":
+                        mm, i = payload
+                        for v in pat_variants(mm["arms"][i]["pat"]):
+                            if v.startswith(TK + "::"):
+                                atoms.append(("arm:" + short(v), True, mm))
+                # `x == Yes` with negative polarity is `x != Yes`
+                atoms += [(a.replace(" == ", " != "), True, x) for a, p, x in atoms if not p and " == " in a]
+                sites.setdefault(val, []).append((b, n, atoms))
+    for key, val, req in specs:
+        hit = [(b, n) for b, n, atoms in sites.get(val, []) if has_all(atoms, req)]
+        rep.check(bool(hit), key, "%s is answered when %s" % (val, " and ".join(("" if p else "not ") + s for s, p in req)),
+                  hit[0][0].loc(hit[0][1]) if hit else ct.loc(ct.root))
+    # no `No`/`Manually` answer under a *positive* table answer (inverted polarity)
+    for val in ("No", "Manually"):
+        for b, n, atoms in sites.get(val, []):
+            inv = [a for a, p, _ in atoms if p and re.search(r"DeriveTrait::can_derive_\w+\(", a) and " == " not in a and " != " not in a]
+            # `if can_derive_union() { if untagged && templated { return No } }` is the one legitimate positive use (rust issue 36640)
+            inv = [a for a in inv if "can_derive_union" not in a]
+            if inv:
+                rep.bad("polarity:%s@%s" % (short(b.path), short(inv[0].split("(")[0])),
+                        "%s is answered although %s says the trait is supported" % (val, inv[0][:80]), b.loc(n))
+    rep.ok("polarity", "no No/Manually answer is guarded by a positive table answer")
+
+    # ---- thresholds -----------------------------------------------------------------------------------
+    want = ORACLE["limits"][LIM]["value"] + 1
+    th = []
+    for b, n, atoms in sites.get("Manually", []):
+        for a, p, x in atoms:
+            if LIM in a and p and isinstance(x, dict):
+                th.append((b, x, threshold(b, x, it)))
+    rep.check(bool(th) and all(t == want for _, _, t in th), "limit:array-length",
+              "arrays become Manually from length %s (oracle: %d)" % ([t for _, _, t in th], want), th[0][0].loc(th[0][1]) if th else "")
+    cons = [b for b in bodies if b.path.endswith("::constrain")]
+    rep.need(cons, "<CannotDerive as MonotoneFramework>::constrain")
+    al = []
+    for b in cons:
+        for n in b.walk():
+            if n["k"] == "Binary" and n["op"] in (">", ">=", "<", "<=") and any(x["k"] == "Field" and x.get("adt") == "ir::layout::Layout" and
+                                                                               x["f"] == "align" for x in b.walk(n)):
+                al.append((b, n, threshold(b, n, it)))
+    rep.check(bool(al) and all(t == want for _, _, t in al), "limit:alignment",
+              "types become Manually from alignment %s (oracle: %d; padding arrays may exceed the limit)" % ([t for _, _, t in al], want),
+              al[0][0].loc(al[0][1]) if al else "")
+    bu = rep.need(prog.fn("ir::comp::CompInfo::has_too_large_bitfield_unit"), "CompInfo::has_too_large_bitfield_unit")
+    bt = [(n, threshold(bu, n, it)) for n in bu.walk() if n["k"] == "Binary" and n["op"] in (">", ">=", "<", "<=")]
+    rep.check(bool(bt) and all(t == want for _, t in bt), "limit:bitfield-unit",
+              "a bit-field unit is too large from %s bytes (oracle: %d)" % ([t for _, t in bt], want), bu.loc(bu.root))
+
+    # ---- joins ----------------------------------------------------------------------------------------
+    cj = rep.need(find_fn(prog, "::constrain_join", "CannotDerive"), "CannotDerive::constrain_join")
+    ors = [n for n in cj.walk() if n["k"] == "AssignOp" and n["op"] == "|="]
+    reads = [c for c in cj.calls(lambda x: x["k"] == "MCall" and x["name"] == "get") if "CannotDerive::can_derive" in cj.canon(c["recv"], 3)]
+    rep.check(len(ors) >= 1 and bool(reads), "join:members", "constrain_join folds the members' results with `|=` (%d site(s))" % len(ors),
+              cj.loc(cj.root))
+    ok = True
+    for r in [n for n in cj.walk() if n["k"] in ("Ret", "Continue")]:
+        for pol, kind, g in cj.guards(r):
+            if kind != "cond" or cj.macro_name(g) in LOG_MACROS:
+                continue
+            for d in disjuncts(g) if pol else [g]:
+                s_ = cj.canon(d, 5)
+                self_edge = " == " in s_ and "Item::id" in s_ and pol
+                rejected = pol and re.fullmatch(r"\(!param:\w+\(cparam:\w+\)\)", s_) is not None
+                if not (self_edge or rejected):
+                    ok = False
+    rep.check(ok, "join:skips", "a member is skipped only when it is the item itself or its edge kind is rejected by the edge predicate", cj.loc(cj.root))
+    tails = [n for n in cj.walk() if n["k"] == "MCall" and n["name"] in ("unwrap_or_default", "unwrap_or") and cj.parent[n["_i"]] is cj.root]
+    rep.check(bool(tails), "join:result", "the folded value is the answer (Yes when there is no member)", cj.loc(cj.root))
+    # the opaque early return is not trait dependent apart from the union test (R8.6 relies on it)
+    yes = [(b, n) for b in bodies for n in returns_of(b, "Yes") if qq.has_atom(qq.guard_atoms(b, n), "IsOpaque>::is_opaque", True)]
+    dep = [a for b, n in yes for a, p, _ in qq.guard_atoms(b, n) if "derive_trait" in a and "can_derive_union" not in a and "not_by_name" not in a]
+    rep.check(bool(yes) and not dep, "opaque:all-traits", "an opaque item answers Yes for every trait (blob of integers)%s" %
+              ("; but depends on %s" % dep[0][:60] if dep else ""), yes[0][0].loc(yes[0][1]) if yes else ct.loc(ct.root))
+
+
+# =====================================================================================================
+#  R8.2  option gating, float exclusion, wiring of the analysis results
+# =====================================================================================================
+def result_fields(prog):
+    """Option-typed field of BindgenContext -> (generic analysis name, DeriveTrait variant or None, body, assign node)"""
+    out = {}
+    for b in prog.methods_of(CTX):
+        for n in b.walk():
+            if n["k"] != "Assign":
+                continue
+            l = n["l"]
+            if l.get("k") != "Field" or l.get("adt") != CTX:
+                continue
+            for c in b.calls(lambda x: x["k"] == "Call" and x.get("callee") == "ir::analysis::analyze", n["r"]):
+                g = re.sub(r"<.*", "", c.get("gargs", "[?]").strip("[]")).rsplit("::", 1)[-1]
+                tr = [short(x["def"]) for x in b.walk(c) if x["k"] == "Path" and x["def"].startswith(DT + "::")]
+                out[l["f"]] = (g, tr[0] if tr else None, b, n)
+    return out
+
+
+def fields_read(b, fields):
+    return {n["f"] for n in b.walk() if n["k"] == "Field" and n.get("adt") == CTX and n["f"] in fields}
+
+
+@RULES.rule("R8.2", "CanDeriveX = option && analysis result [&& no float]; results are wired to the right analysis", floor=34)
+def r8_2(rep):
+    """`impl<T> CanDeriveX for T` must be exactly `options.derive_x && lookup_x(id)`, Eq and Ord additionally
+    `!lookup_has_float(id)`, reading the result of the analysis the oracle names.  Breaks: dropping `!lookup_has_float`
+    from can_derive_eq derives Eq on `struct { float f; }` (E0277); can_derive_hash reading the Debug result derives
+    Hash over floats; dropping `options.derive_hash` derives Hash although the user did not ask (and unwraps a result
+    that was never computed)."""
+    prog = rep.prog
+    res = result_fields(prog)
+    rep.need(res, "assignments of analysis results to BindgenContext fields")
+    # wiring of compute_* : field <- analysis
+    by_trait = {}
+    for f, (g, tr, b, n) in sorted(res.items()):
+        if g == "CannotDerive":
+            rep.check(tr is not None and tr.lower() in f.replace("_", "") + "partialeqorpartialord" and
+                      (f.replace("cannot_derive_", "").replace("_", "") == tr.lower()),
+                      "wire:compute:" + f, "`%s` holds the CannotDerive analysis of DeriveTrait::%s" % (f, tr), b.loc(n))
+            by_trait.setdefault(tr, []).append(f)
+        elif g == "HasFloat":
+            rep.check(f == "has_float", "wire:compute:" + f, "`%s` holds the HasFloat analysis" % f, b.loc(n))
+    for t in TRAITS:
+        rep.check(len(by_trait.get(t, [])) == 1, "wire:analysis:" + t, "exactly one result field holds the %s analysis (%s)" % (t, by_trait.get(t)))
+    float_fields = {f for f, v in res.items() if v[0] == "HasFloat"}
+    derive_fields = {f: v[1] for f, v in res.items() if v[0] == "CannotDerive"}
+
+    # lookup_* : which result they read and with which polarity
+    lookups = {}
+    for b in prog.methods_of(CTX):
+        rd = fields_read(b, set(derive_fields) | float_fields)
+        if not rd or b.path in {v[2].path for v in res.values()}:
+            continue
+        tail = b.root.get("tail")
+        if tail is None:
+            continue
+        lookups[b.path] = (b, rd)
+        if b.ty(tail) == "bool":
+            ats = atoms_of(b, tail)
+            own = [(a, p) for a, p, x in ats if any("%s::%s" % (CTX, f) in a for f in rd) and "contains(" in a]
+            want_pol = bool(rd & float_fields)     # has_float: member of the set; cannot_derive_x: NOT member of the set
+            rep.check(len(own) == 1 and own[0][1] == want_pol and len(rd) == 1, "wire:lookup:" + short(b.path),
+                      "%s is %s membership in `%s`" % (short(b.path), "" if want_pol else "the negation of", sorted(rd)), b.loc(tail))
+            extra = [(a, p) for a, p, x in ats if (a, p) not in own]
+            for a, p in extra:
+                rep.check(not p and "BindgenContext::lookup_" in a, "wire:lookup-extra:" + short(b.path),
+                          "additional condition of %s only withholds: %s%s" % (short(b.path), "" if p else "!", a[:70]), b.loc(tail))
+        else:
+            t = strip(tail)
+            dflt = t.get("k") == "MCall" and t["name"] == "unwrap_or" and b.canon(t["args"][0], 2) == CD + "::" + ORACLE["lattice"]["default"]
+            rep.check(dflt and len(rd) == 1, "wire:lookup:" + short(b.path),
+                      "%s returns the recorded value of `%s`, %s for items the analysis never complained about" %
+                      (short(b.path), sorted(rd), ORACLE["lattice"]["default"]), b.loc(tail))
+
+    def classify(b, a, p, x):
+        """('opt', name) | ('analysis', DeriveTrait, form) | ('float',) | ('other', text)"""
+        of = opt_field(x)
+        if of:
+            return ("opt", of)
+        e = strip(x)
+        cmp_yes = None
+        if e.get("k") == "Binary" and e["op"] in ("==", "!="):
+            for u, w in ((e["l"], e["r"]), (e["r"], e["l"])):
+                if strip(w).get("k") == "Path" and strip(w)["def"].startswith(CD + "::"):
+                    cmp_yes = (e["op"], short(strip(w)["def"]))
+                    e = strip(u)
+        if e.get("k") == "MCall" and callee_of(e) in lookups:
+            lb, rd = lookups[callee_of(e)]
+            arg_ok = len(e["args"]) == 1 and b.canon(e["args"][0], 2) in ("param:self", "(*param:self)")
+            if rd & float_fields:
+                return ("float", arg_ok)
+            f = sorted(rd)[0]
+            return ("analysis", derive_fields.get(f), cmp_yes, arg_ok)
+        return ("other", a[:80])
+
+    for x, g in sorted(ORACLE["gating"].items()):
+        if x.startswith("_"):
+            continue
+        trait = "ir::derive::CanDerive" + x
+        meth = "can_derive_" + x.lower()
+        gen = [b for b in prog.bodies.values() if b.fact.get("impl_trait") == trait and b.fact.get("impl_self") != "ir::item::Item" and
+               b.path.endswith("::" + meth)]
+        rep.need(gen, "impl<T> %s for T" % trait)
+        b = gen[0]
+        tail = rep.need(b.root.get("tail"), "tail expression of " + b.path)
+        got = []
+        for a, p, node in atoms_of(b, tail):
+            c = classify(b, a, p, node)
+            if c[0] == "analysis":
+                # bool lookups are used as-is (positive); CanDerive lookups must be compared `== Yes`
+                form_ok = (c[2] is None and p) or (c[2] == ("==", "Yes") and p) or (c[2] == ("!=", "Yes") and not p)
+                got.append(("analysis", c[1], form_ok and c[3]))
+            elif c[0] == "float":
+                got.append(("float", p, c[1]))
+            elif c[0] == "opt":
+                got.append(("opt", c[1], p))
+            else:
+                got.append(c)
+        want = [("opt", g["option"], True), ("analysis", g["analysis"], True)] + ([("float", False, True)] if g["float_excluded"] else [])
+        rep.check(sorted(map(str, got)) == sorted(map(str, want)), "gate:" + x,
+                  "%s for an id is %s; must be exactly %s" % (meth, got, want), b.loc(tail))
+        # the Item impl delegates to the same trait on its own id
+        ib = rep.need(prog.impl_fn(trait, "ir::item::Item", meth), "<Item as %s>" % trait)
+        t = strip(ib.root.get("tail") or {})
+        ok = t.get("k") == "MCall" and t.get("trait") == trait and t["name"] == meth and ib.canon(t["recv"], 3) == "param:self.ir::item::Item::id"
+        rep.check(ok, "gate-item:" + x, "<Item as CanDerive%s> asks the same question about its own id (%s)" % (x, ib.canon(t, 3)[:90] if t else "?"),
+                  ib.loc(ib.root))
+
+
+# =====================================================================================================
+#  R8.3  results that are computed only under a condition are only unwrapped under a guard implying it
+#        (generic; C12 R12.1 re-uses `check_guarded_unwraps`)
+# =====================================================================================================
+UNWRAPS = ("unwrap", "expect", "unwrap_unchecked")
+
+
+def atom_key(b, a, x):
+    """canonical, body-independent key of a guard atom: option fields become `opt:<field>`"""
+    of = opt_field(x) if isinstance(x, dict) else None
+    return "opt:" + of if of else "x:" + a
+
+
+def guard_literals(b, node):
+    """[(key, polarity)] of the guard chain of node; atoms that come from assertion macros are dropped (a failed
+    assertion panics, it does not silently skip)"""
+    out = []
+    for a, p, x in qq.guard_atoms(b, node):
+        if isinstance(x, dict) and x.get("k") and b.macro_name(x) in ASSERT_MACROS:
+            continue
+        if a.startswith(("arm:", "letelse:")):
+            out.append(("x:" + a, p))
+            continue
+        out.append((atom_key(b, a, x), p))
+    return out
+
+
+def call_index(prog):
+    """callee path -> [(body, call node)] over the whole crate (both the trait item and the resolved impl method)"""
+    idx = getattr(prog, "_c08_call_index", None)
+    if idx is None:
+        idx = {}
+        for b in prog.bodies.values():
+            for n in b.nodes:
+                if n["k"] in ("Call", "MCall"):
+                    for key in {n.get("resolved"), n.get("callee")} - {None}:
+                        idx.setdefault(key, []).append((b, n))
+        prog._c08_call_index = idx
+    return idx
+
+
+def conditional_results(prog, adt):
+    """Option-typed fields of `adt` that some method fills with `Some(..)`.
+
+    -> {field: {"dnf": [[(key, pol), ..], ..], "sites": [(body, assign node)], "unconditional": bool}}
+    The condition of a site is its own guard chain conjoined with the guard chain of each call of the assigning method
+    (one level: `compute_x` is called from `gen`)."""
+    a = prog.adts.get(adt)
+    if not a:
+        return {}
+    opt_fields = {f["name"] for v in a["variants"] for f in v["fields"] if prog.types[f["ty"]].startswith("std::option::Option<")}
+    idx = call_index(prog)
+    out = {}
+    for b in prog.bodies.values():
+        for n in b.nodes:
+            if n["k"] != "Assign":
+                continue
+            l = n["l"]
+            if l.get("k") != "Field" or l.get("adt") != adt or l["f"] not in opt_fields:
+                continue
+            r = strip(n["r"])
+            if not (r.get("k") == "Call" and short(r.get("ctor", "")) == "Some"):
+                continue
+            own = guard_literals(b, n)
+            callers = idx.get(b.path, [])
+            conjs = [own + guard_literals(kb, kc) for kb, kc in callers] or [own]
+            ent = out.setdefault(l["f"], {"dnf": [], "sites": []})
+            ent["dnf"] += conjs
+            ent["sites"].append((b, n))
+    for f, ent in out.items():
+        ent["unconditional"] = any(not c for c in ent["dnf"])
+    return out
+
+
+def entails(lits, dnf, implications=()):
+    """does the conjunction `lits` imply the DNF, for every valuation of the option atoms that respects `implications`
+    (pairs (a, b) meaning opt a => opt b)?  Non-option atoms of the DNF count only if the same literal is in `lits`."""
+    have = set(lits)
+    opts = sorted({k for k, _ in lits if k.startswith("opt:")} | {k for c in dnf for k, _ in c if k.startswith("opt:")} |
+                  {"opt:" + x for ab in implications for x in ab})
+    if len(opts) > 14:
+        return False
+    for vals in itertools.product((False, True), repeat=len(opts)):
+        w = dict(zip(opts, vals))
+        if any(w["opt:" + a] and not w["opt:" + b] for a, b in implications):
+            continue
+        if not all(w[k] == p for k, p in lits if k in w):
+            continue
+        sat = False
+        for c in dnf:
+            if all((w[k] == p) if k in w else ((k, p) in have) for k, p in c):
+                sat = True
+                break
+        if not sat:
+            return False
+    return True
+
+
+_INV_CACHE = {}
+
+
+def option_invariant(prog, a, b):
+    """Is `options.a => options.b` an invariant of BindgenOptions?  True iff it holds for the default value and every
+    body that assigns either field (or builds a BindgenOptions literal) preserves it, for all values of its bool
+    parameters.  -> (bool, explanation)"""
+    key = (id(prog), a, b)
+    if key in _INV_CACHE:
+        return _INV_CACHE[key]
+    ka, kb = (OPTS, a), (OPTS, b)
+    writers, literals, borrowed = [], [], []
+    for body in prog.bodies.values():
+        w = False
+        for n in body.nodes:
+            if n["k"] in ("Assign", "AssignOp") and n["l"].get("k") == "Field" and n["l"].get("adt") == OPTS and n["l"]["f"] in (a, b):
+                w = True
+            elif n["k"] == "Struct" and n.get("adt") == OPTS:
+                literals.append((body, n))
+            elif n["k"] == "AddrOf" and n.get("mut") and strip(n["e"]).get("k") == "Field" and strip(n["e"]).get("adt") == OPTS and \
+                    strip(n["e"])["f"] in (a, b):
+                borrowed.append(body.path)
+        if w:
+            writers.append(body)
+    res = (True, "%d writer(s), %d literal(s)" % (len(writers), len(literals)))
+    if borrowed:
+        res = (False, "`&mut options.%s/%s` escapes in %s" % (a, b, borrowed[0]))
+    pre = [(False, False), (False, True), (True, True)]
+    for body, lit in literals:
+        if not res[0]:
+            break
+        fs = {f["f"]: f["e"] for f in lit["fs"]}
+        for sa, sb in pre:
+            it = Interp(prog, state={ka: sa, kb: sb})
+            try:
+                va = it.ev(body, fs[a], {}) if a in fs else sa
+                vb = it.ev(body, fs[b], {}) if b in fs else sb
+            except (Undecidable, Panics) as e:
+                va = vb = UNK
+            if va is not False and vb is not True:
+                res = (False, "a BindgenOptions literal in %s can hold %s=%s, %s=%s" % (body.path, a, vname(va), b, vname(vb)))
+                break
+    for body in writers:
+        if not res[0]:
+            break
+        bools = [i for i, t in enumerate(body.fact.get("inputs", [])) if body.prog.types[t] == "bool"] \
+            if body.fact.get("inputs") and isinstance(body.fact["inputs"][0], int) else \
+            [i for i, p in enumerate(body.params) if p.get("t") is not None and body.prog.types[p["t"]] == "bool"]
+        for combo in itertools.product((False, True), repeat=len(bools)):
+            for sa, sb in pre:
+                it = Interp(prog, state={ka: sa, kb: sb})
+                args = [UNK] * len(body.params)
+                for i, v in zip(bools, combo):
+                    args[i] = v
+                try:
+                    it.call(body, args)
+                    va, vb = it.state[ka], it.state[kb]
+                except (Undecidable, Panics) as e:
+                    va = vb = UNK
+                if va is not False and vb is not True:
+                    res = (False, "%s(%s) can leave %s=%s with %s=%s" % (short(body.path), ",".join(map(str, combo)), a, vname(va), b, vname(vb)))
+                    break
+            if not res[0]:
+                break
+    _INV_CACHE[key] = res
+    return res
+
+
+def check_guarded_unwraps(rep, adt, prefix="unwrap", only_fields=None, max_depth=4):
+    """For every `self.<F>.unwrap()/expect()` of a conditionally computed Option field F of `adt`: the guard chain of the
+    unwrap — extended through the callers of the enclosing function as long as necessary — implies the condition
+    under which F is computed (modulo verified invariants between option flags).
+    Emits one instance per unwrap site (`<prefix>:<F>@<fn>`) plus `computed:<F>` and `invariant:<a>=><b>`."""
+    prog = rep.prog
+    res = conditional_results(prog, adt)
+    idx = call_index(prog)
+    used_inv = {}
+
+    def prove(lits, dnf):
+        if entails(lits, dnf):
+            return True
+        pos = [k[4:] for k, p in lits if k.startswith("opt:") and p]
+        tgt = sorted({k[4:] for c in dnf for k, p in c if k.startswith("opt:") and p})
+        impl = []
+        for a in pos:
+            for b in tgt:
+                if a != b:
+                    ok, why = option_invariant(prog, a, b)
+                    if ok:
+                        impl.append((a, b))
+        if impl and entails(lits, dnf, impl):
+            for ab in impl:
+                if not entails(lits, dnf, [x for x in impl if x != ab]):
+                    used_inv[ab] = option_invariant(prog, *ab)[1]
+            return True
+        return False
+
+    def obligation(b, node, lits, dnf, depth, seen):
+        """-> list of (ok, description, loc) leaves"""
+        lits = lits + guard_literals(b, node)
+        if prove(lits, dnf):
+            return [(True, "guarded in %s by %s" % (short(b.path), [("" if p else "!") + k for k, p in lits if k.startswith("opt:")]), b.loc(node))]
+        callers = idx.get(b.path, [])
+        ti = b.fact.get("trait_item")
+        if ti:
+            callers = callers + [c for c in idx.get(ti, []) if c not in callers]
+        if depth <= 0 or not callers or b.path in seen:
+            return [(False, "reached in %s under %s only" % (b.path, [("" if p else "!") + k for k, p in lits if k.startswith("opt:")] or "no option guard"),
+                     b.loc(node))]
+        out = []
+        keep = [(k, p) for k, p in lits if k.startswith("opt:")]
+        for kb, kc in callers:
+            out += obligation(kb, kc, keep, dnf, depth - 1, seen | {b.path})
+        return out
+
+    n_sites = 0
+    for f, ent in sorted(res.items()):
+        if only_fields is not None and f not in only_fields:
+            continue
+        cond = " || ".join(" && ".join(("" if p else "!") + k for k, p in c) or "true" for c in ent["dnf"])
+        rep.ok("computed:" + f, "`%s` is filled %s" % (f, "unconditionally" if ent["unconditional"] else "only when " + cond),
+               ent["sites"][0][0].loc(ent["sites"][0][1]))
+        for b in prog.bodies.values():
+            for n in b.nodes:
+                if n["k"] == "MCall" and n["name"] in UNWRAPS:
+                    r = strip(n["recv"])
+                    if r.get("k") == "Field" and r.get("adt") == adt and r["f"] == f:
+                        n_sites += 1
+                        key = "%s:%s@%s" % (prefix, f, short(b.path))
+                        if ent["unconditional"]:
+                            rep.ok(key, "always computed", b.loc(n))
+                            continue
+                        leaves = obligation(b, n, [], ent["dnf"], max_depth, frozenset())
+                        bad = [l for l in leaves if not l[0]]
+                        if bad:
+                            rep.bad(key, "`%s` is computed only when %s, but its unwrap is %s" % (f, cond, bad[0][1]), bad[0][2])
+                        else:
+                            rep.ok(key, "`%s` (computed when %s): %s" % (f, cond, "; ".join(sorted({l[1] for l in leaves}))[:300]), b.loc(n))
+    for (a, b), why in sorted(used_inv.items()):
+        rep.ok("invariant:%s=>%s" % (a, b), "every setter keeps `%s` implying `%s` (%s)" % (a, b, why))
+    return n_sites
+
+
+@RULES.rule("R8.3", "a conditionally computed analysis result is only unwrapped under a guard that implies its condition", floor=22)
+def r8_3(rep):
+    """`compute_cannot_derive_hash` fills `cannot_derive_hash` only under `options.derive_hash`; `lookup_can_derive_hash`
+    unwraps it.  Every path to the unwrap must carry a guard that implies the filling condition, otherwise bindgen
+    panics on `None` (e.g. calling `lookup_can_derive_hash` from codegen without testing `derive_hash`, or computing the
+    PartialEq/PartialOrd result under `derive_partialord || derive_partialeq` only while can_derive_eq reads it under
+    `derive_eq`).  Implications between option flags (`derive_ord => derive_partialord`) are used only after checking
+    that every Builder setter preserves them."""
+    n = check_guarded_unwraps(rep, CTX)
+    rep.check(n >= 10, "unwrap-sites", "%d unwrap sites of computed results" % n)
